@@ -48,6 +48,24 @@ func faultEngine() {
 			continue
 		}
 		target := commits[rng.Intn(len(commits))]
+		if o.InitialMmap != 0 && len(commits) >= 2 {
+			// hold a reader that is older than the newest state when the targeted commit fails:
+			// open it before the write transaction preceding the targeted one
+			target = commits[1+rng.Intn(len(commits)-1)]
+			var begins []int
+			for i, op := range ops[:target] {
+				if op.K == "beginw" {
+					begins = append(begins, i)
+				}
+			}
+			if len(begins) >= 2 {
+				at := begins[len(begins)-2]
+				held := Op{K: "beginr", Tx: "rheld"}
+				ops = append(ops[:at:at], append([]Op{held}, ops[at:]...)...)
+				target++
+				ops = append(ops, Op{K: "dump", Tx: "rheld"}, Op{K: "endr", Tx: "rheld"})
+			}
+		}
 		// dry run to count the I/O calls of that commit
 		faultPlan = []int{target, 1 << 30}
 		t0 := runTrace(rep, dir, fmt.Sprintf("f%d-dry", pi), o, ops)
@@ -58,7 +76,9 @@ func faultEngine() {
 		}
 		for k := 1; k <= n; k++ {
 			faultPlan = []int{target, k, target}
+			inFlight("fault", map[string]any{"options": o.String(), "opts": o, "ops": opLines(ops), "fault": []int{target, k}})
 			t := runTrace(rep, dir, fmt.Sprintf("f%d-%d", pi, k), o, ops)
+			inFlight("fault", nil)
 			checkTrace(rep, t)
 			rep.Distinct++
 		}
